@@ -30,6 +30,7 @@ type staticCase struct {
 	Method   string `json:"method"`
 	Path     core.B `json:"path"`
 	INM      string `json:"if_none_match,omitempty"` // "" | match | other
+	Logging  bool   `json:"enable_logging,omitempty"`
 }
 
 func init() {
@@ -75,6 +76,14 @@ func newFixture() *fixture {
 	for _, f := range fixtureInside {
 		put(f, "INSIDE")
 	}
+	// boundary contents: an empty file and a large one
+	empty := filepath.Join(fx.pub, "empty.txt")
+	_ = os.WriteFile(empty, nil, 0o644)
+	fx.files[empty] = ""
+	big := filepath.Join(fx.pub, "big.bin")
+	bigContent := strings.Repeat("INSIDE<pub/big.bin>0123456789abcdef", 30000)
+	_ = os.WriteFile(big, []byte(bigContent), 0o644)
+	fx.files[big] = bigContent
 	for _, f := range fixtureOutside {
 		put(f, "OUTSIDE-MARKER")
 	}
@@ -313,6 +322,7 @@ func genStaticCase(rng *rand.Rand) *staticCase {
 		Index:    []string{"", "", "home.htm", "b", "missing.html"}[rng.Intn(5)],
 		ETag:     rng.Intn(2) == 0,
 		Headers:  rng.Intn(2) == 0,
+		Logging:  rng.Intn(4) == 0,
 		CustomFS: rng.Intn(4) == 0,
 		Method:   "GET",
 	}
@@ -350,7 +360,7 @@ func genStaticCase(rng *rand.Rand) *staticCase {
 	p := sb.String()
 	if rng.Intn(10) < 4 {
 		// fixture-directed: an existing inside file or directory under the right prefix, lightly disguised
-		rel := []string{"a.txt", "dir/index.html", "dir/b", "dir", "dir/", "", "index.html", "sp ace", "..x", "idx2", "idx2/", "idx2/home.htm", "deep/d2", "deep/d2/", "static/a.txt", "s/t/u.txt", "noidx/", "diridx/", "deep"}[rng.Intn(19)]
+		rel := []string{"a.txt", "dir/index.html", "dir/b", "dir", "dir/", "", "index.html", "sp ace", "..x", "idx2", "idx2/", "idx2/home.htm", "deep/d2", "deep/d2/", "static/a.txt", "s/t/u.txt", "noidx/", "diridx/", "deep", "empty.txt", "big.bin"}[rng.Intn(21)]
 		switch rng.Intn(8) {
 		case 0:
 			rel = "./" + rel
@@ -384,7 +394,7 @@ func judgeStatic(w *core.W, fx *fixture, c *staticCase, classes func(string)) {
 	if idx == "" {
 		idx = "index.html"
 	}
-	opts := flamego.StaticOptions{Directory: fx.pub, Prefix: c.Prefix, Index: c.Index, SetETag: c.ETag}
+	opts := flamego.StaticOptions{Directory: fx.pub, Prefix: c.Prefix, Index: c.Index, SetETag: c.ETag, EnableLogging: c.Logging}
 	if c.Headers {
 		opts.Expires = func() string { return "EXP" }
 		opts.CacheControl = func() string { return "CC" }
